@@ -1,7 +1,8 @@
 (* WaveletOp: the synthesis filter bank is the adjoint of the analysis filter bank exactly when the reconstruction
    filters are the reversed (conjugated) decomposition filters - for every filter length, signal length (even or odd),
    number of levels and scalar ring. *)
-From MrVerif Require Import Base.Prelude Base.StarRing Base.Sums Model.OpAlg Model.Wavelet Proofs.OpAlgProofs.
+From MrVerif Require Import Base.Prelude Base.StarRing Base.Sums Model.OpAlg Model.ZeroPad Model.ElemOps Model.Wavelet Proofs.OpAlgProofs
+  Proofs.ElemOpsProofs Proofs.AlongProofs.
 Local Open Scope nat_scope.
 
 Section WaveletProofs.
@@ -201,6 +202,36 @@ Section WaveletProofs.
     (adjoint_pair (dwt1 L n flo fhi glo ghi) <-> filters_match L flo glo /\ filters_match L fhi ghi).
   Proof.
     intros Hn. split; [apply dwt1_adjoint_converse; exact Hn|]. intros [H1 H2]. apply dwt1_adjoint; assumption.
+  Qed.
+  (* ---------- two dimensions ---------- *)
+  Lemma band2_adjoint L n1 n2 (fa ga fb gb : vec) :
+    filters_match L fa ga -> filters_match L fb gb -> adjoint_pair (band2_op L n1 n2 fa ga fb gb).
+  Proof.
+    intros Ha Hb. unfold band2_op. apply comp_adjoint.
+    - cbn [along dom ran band_op]. ring.
+    - apply along_adjoint, band_adjoint; assumption.
+    - apply along_adjoint, band_adjoint; assumption.
+  Qed.
+
+  Lemma dwt2_adjoint L n1 n2 (flo fhi glo ghi : vec) :
+    filters_match L flo glo -> filters_match L fhi ghi -> adjoint_pair (dwt2 L n1 n2 flo fhi glo ghi).
+  Proof.
+    intros Hlo Hhi. unfold dwt2.
+    repeat (apply vstack_adjoint; [reflexivity|apply band2_adjoint; assumption|]). apply band2_adjoint; assumption.
+  Qed.
+
+  Lemma wavedec2_dom level L n1 n2 (flo fhi glo ghi : vec) : dom (wavedec2_op level L n1 n2 flo fhi glo ghi) = (n1 * (n2 * 1))%nat.
+  Proof. destruct level; reflexivity. Qed.
+
+  Theorem wavedec2_adjoint level : forall L n1 n2 (flo fhi glo ghi : vec),
+    filters_match L flo glo -> filters_match L fhi ghi -> adjoint_pair (wavedec2_op level L n1 n2 flo fhi glo ghi).
+  Proof.
+    induction level as [|l IH]; intros L n1 n2 flo fhi glo ghi Hlo Hhi; cbn [wavedec2_op].
+    - apply idop_adjoint.
+    - cbv zeta. apply comp_adjoint.
+      + cbn [bdiag dom idop]. rewrite wavedec2_dom. unfold dwt2, band2_op. cbn [vstack comp along ran dom band_op]. ring.
+      + apply bdiag_adjoint; [apply IH; assumption|apply idop_adjoint].
+      + apply dwt2_adjoint; assumption.
   Qed.
 End WaveletProofs.
 
